@@ -39,6 +39,9 @@ type Solver struct {
 	Timeout int // ms
 	LogW    io.Writer
 	dead    bool
+	curTO   int
+	// NextTimeout, when non-zero, applies to the next Check only (z3).
+	NextTimeout int
 }
 
 func New(kind string, timeoutMs int) (*Solver, error) {
@@ -83,6 +86,7 @@ func (s *Solver) preamble() {
 		s.send("(set-logic ALL)\n")
 	} else {
 		s.send(fmt.Sprintf("(set-option :timeout %d)\n", s.Timeout))
+		s.curTO = s.Timeout
 	}
 }
 
@@ -196,6 +200,17 @@ func (s *Solver) Check(extra []*sym.Term, want []*sym.Term) (Result, []string, e
 	}
 	s.flushDefs()
 	var sb strings.Builder
+	if s.Kind != "cvc5" {
+		want := s.Timeout
+		if s.NextTimeout > 0 {
+			want = s.NextTimeout
+		}
+		s.NextTimeout = 0
+		if want != s.curTO {
+			sb.WriteString(fmt.Sprintf("(set-option :timeout %d)\n", want))
+			s.curTO = want
+		}
+	}
 	sb.WriteString("(push 1)\n")
 	for _, r := range refs {
 		sb.WriteString("(assert " + r + ")\n")
